@@ -1,6 +1,8 @@
 (* runner.ml — the only hand-written OCaml: hex <-> byte list, a read/compare loop.
    Line format:  name arg1 arg2 ... | out1 out2 ...     ("-" is the empty byte string)
-   Without "|" the model's answer is printed instead of compared. *)
+   Without "|" the model's answer is printed instead of compared.
+   The model is a function: answers to repeated calls are memoised (bounded table) — the extracted SHA-2 costs
+   milliseconds per block and the same derivation is asked for by the oracle leg and by the comparison leg. *)
 type byte = Model.byte
 let dispatch = Model.dispatch2
 
@@ -29,6 +31,8 @@ let bytes_of_string (s : string) : byte list =
 
 let split_ws s = List.filter (fun x -> x <> "") (String.split_on_char ' ' s)
 
+let memo : (string, string) Hashtbl.t = Hashtbl.create 4096
+
 let () =
   let total = ref 0 and bad = ref 0 and lineno = ref 0 in
   (try while true do
@@ -41,8 +45,14 @@ let () =
       match split_ws lhs with
       | [] -> ()
       | name :: args ->
-        let out = dispatch (bytes_of_string name) (List.map bytes_of_hex args) in
-        let outs = String.concat " " (List.map hex_of_bytes out) in
+        let key = String.concat " " (name :: args) in
+        let outs = match Hashtbl.find_opt memo key with
+          | Some o -> o
+          | None ->
+            let out = dispatch (bytes_of_string name) (List.map bytes_of_hex args) in
+            let o = String.concat " " (List.map hex_of_bytes out) in
+            if String.length key < 2048 && Hashtbl.length memo < 100000 then Hashtbl.replace memo key o;
+            o in
         incr total;
         (match rhs with
          | None -> print_endline outs
